@@ -235,6 +235,7 @@ pub fn execute(sc: &Scn, choices: &[usize]) -> Exec {
     let t_start = Instant::now();
     let mut main_running_since: Option<Instant> = None;
     let mut expect_threads = 0usize;
+    let mut in_window_since: Option<Instant> = None;
     loop {
         if t_start.elapsed() > Duration::from_secs(30) {
             ex.machinery = Some("execution exceeded 30 s".into());
@@ -264,6 +265,11 @@ pub fn execute(sc: &Scn, choices: &[usize]) -> Exec {
                         in_drain = false;
                         // the attempt thread spawned next must have shown up before anything is decided
                         expect_threads = threads.len() + 1;
+                        if in_window_since.is_some() && std::env::var("VH_DEBUG").is_ok() {
+                            eprintln!("DEBUG window ran out by itself after {:?}: threads {:?}", in_window_since.unwrap().elapsed(), threads.iter().map(|t| (t.name, t.status.clone())).collect::<Vec<_>>());
+                            eprintln!("DEBUG events {:?} scenario {:?}", gates.events().iter().map(|e| (e.thread, e.label, e.at_us)).collect::<Vec<_>>(), sc);
+                        }
+                        in_window_since = Some(Instant::now());
                         gates.release(ti);
                         progressed = true;
                     }
@@ -310,13 +316,10 @@ pub fn execute(sc: &Scn, choices: &[usize]) -> Exec {
         if !others_quiet {
             continue;
         }
-        // the main thread is running: blocked in its channel wait once it has been so for a while
-        if main.status == St::Running {
-            let since = *main_running_since.get_or_insert_with(Instant::now);
-            if since.elapsed() < Duration::from_millis(12) {
-                continue;
-            }
-        }
+        // The main thread is running: either inside its channel wait or on its way there. A result
+        // delivered before it gets there is simply the first thing it finds in the channel - the
+        // same outcome as a delivery at the very start of the wait - so there is nothing to wait for.
+        let _ = &mut main_running_since;
         if !(in_window || in_drain) {
             // sending the request / reading the response: nothing to decide
             continue;
@@ -332,6 +335,7 @@ pub fn execute(sc: &Scn, choices: &[usize]) -> Exec {
         if in_window {
             moves.push(Mv::Expire);
         }
+        let shape_mark = if in_window { 0 } else { 100 };
         if moves.is_empty() {
             // drain with nothing pending: the attempts that are still running will report by themselves
             continue;
@@ -343,7 +347,8 @@ pub fn execute(sc: &Scn, choices: &[usize]) -> Exec {
         }
         step += 1;
         let mv = moves[choice].clone();
-        ex.points.push((moves.len(), mv.clone()));
+        in_window_since = None;
+        ex.points.push((moves.len() + shape_mark, mv.clone()));
         match mv {
             Mv::Deliver(ai) => {
                 let ti = pending.iter().find(|(_, a)| *a == ai).unwrap().0;
@@ -485,9 +490,14 @@ fn explore(ctx: &Ctx, sc: &Scn, rank_base: u64) -> Stats {
             v
         };
         if !ex.violations.is_empty() {
+            // Re-execute the recorded schedule. The race windows are 200 ms of real time: a run in
+            // which a window ran out before the explorer's decision landed has a different shape
+            // (fewer moves at that point) - that is timing noise of the harness, not a different
+            // verdict, and such a run is repeated.
+            let shape = |e: &Exec| e.points.iter().map(|p| p.0).collect::<Vec<_>>();
             let mut again = execute(sc, &full);
             let mut tries = 0;
-            while again.machinery.is_some() && tries < 4 {
+            while (again.machinery.is_some() || shape(&again) != shape(&ex)) && tries < 6 {
                 tries += 1;
                 st.retried += 1;
                 again = execute(sc, &full);
@@ -501,7 +511,7 @@ fn explore(ctx: &Ctx, sc: &Scn, rank_base: u64) -> Stats {
             }
         }
         for i in prefix.len()..ex.points.len() {
-            for alt in 1..ex.points[i].0 {
+            for alt in 1..(ex.points[i].0 % 100) {
                 let mut p = full[..i].to_vec();
                 p.push(alt);
                 stack.push(p);
@@ -702,21 +712,61 @@ pub fn c17(ctx: &Ctx) -> Report {
             ctx.violation(format!("C17:{sig}"), what, json!({"engine": "c17", "timing": t}), 0);
         }
     }
-    // Part A
+    // Part A: in worker PROCESSES (each with a small thread pool): hundreds of short-lived threads in
+    // one address space contend for the kernel's per-process memory-map lock, and thread start-up
+    // delays of 100+ ms would let the 200 ms race windows run out before the explorer has decided.
     let scs = scenarios(ctx.tier);
-    let pool = rayon::ThreadPoolBuilder::new().num_threads(64).build().unwrap();
-    let stats: Vec<Stats> = pool.install(|| {
-        use rayon::prelude::*;
-        scs.par_iter().enumerate().map(|(i, sc)| explore(ctx, sc, (sc.addrs.len() as u64) * 1_000_000 + i as u64 * 1000)).collect()
+    let nshards = 16u64;
+    let exe = std::env::current_exe().unwrap();
+    let tier_name = ctx.tier.name();
+    let outputs: Vec<(u64, Option<String>)> = std::thread::scope(|s| {
+        let hs: Vec<_> = (0..nshards)
+            .map(|sh| {
+                let exe = exe.clone();
+                s.spawn(move || {
+                    let out = std::process::Command::new(exe).args(["C17", "--worker", tier_name, &sh.to_string(), &nshards.to_string()]).stderr(std::process::Stdio::inherit()).output();
+                    match out {
+                        Ok(o) if o.status.success() => (sh, Some(String::from_utf8_lossy(&o.stdout).into_owned())),
+                        _ => (sh, None),
+                    }
+                })
+            })
+            .collect();
+        hs.into_iter().map(|h| h.join().unwrap()).collect()
     });
-    let (mut execs, mut points, mut retried) = (0, 0, 0);
+    let (mut execs, mut points, mut retried) = (0u64, 0u64, 0u64);
     let mut outcomes: BTreeMap<String, u64> = BTreeMap::new();
-    for s in &stats {
-        execs += s.executions;
-        points += s.points;
-        retried += s.retried;
-        for (k, v) in &s.outcomes {
-            *outcomes.entry(k.clone()).or_insert(0) += v;
+    for (sh, out) in outputs {
+        let text = match out {
+            Some(t) => t,
+            None => {
+                eprintln!("MACHINERY: C17 worker {sh} failed");
+                std::process::exit(2);
+            }
+        };
+        let mut done = false;
+        for line in text.lines() {
+            let v: serde_json::Value = match serde_json::from_str(line) {
+                Ok(v) => v,
+                Err(_) => continue,
+            };
+            match v["t"].as_str() {
+                Some("v") => ctx.violation_n(v["sig"].as_str().unwrap().to_string(), v["what"].as_str().unwrap().to_string(), v["case"].clone(), v["rank"].as_u64().unwrap_or(0), v["n"].as_u64().unwrap_or(1)),
+                Some("done") => {
+                    done = true;
+                    execs += v["executions"].as_u64().unwrap();
+                    points += v["points"].as_u64().unwrap();
+                    retried += v["retried"].as_u64().unwrap();
+                    for (k, n) in v["outcomes"].as_object().unwrap() {
+                        *outcomes.entry(k.clone()).or_insert(0) += n.as_u64().unwrap();
+                    }
+                }
+                _ => {}
+            }
+        }
+        if !done {
+            eprintln!("MACHINERY: C17 worker {sh} did not finish");
+            std::process::exit(2);
         }
     }
     ctx.merge_outcomes(&outcomes);
@@ -762,4 +812,34 @@ pub fn replay(v: &serde_json::Value) -> i32 {
     } else {
         1
     }
+}
+
+/// Worker: `vh C17 --worker <tier> <shard> <nshards>`: explores its share of the scenarios.
+pub fn worker(args: &[String]) -> i32 {
+    let tier = if args[0] == "thorough" { Tier::Thorough } else { Tier::Quick };
+    let shard: usize = args[1].parse().unwrap();
+    let nshards: usize = args[2].parse().unwrap();
+    let ctx = Ctx::new("C17", tier);
+    let scs = scenarios(tier);
+    let mine: Vec<(usize, &Scn)> = scs.iter().enumerate().filter(|(i, _)| i % nshards == shard).collect();
+    let pool = rayon::ThreadPoolBuilder::new().num_threads(4).build().unwrap();
+    let stats: Vec<Stats> = pool.install(|| {
+        use rayon::prelude::*;
+        mine.par_iter().map(|(i, sc)| explore(&ctx, sc, (sc.addrs.len() as u64) * 1_000_000 + *i as u64 * 1000)).collect()
+    });
+    let (mut execs, mut points, mut retried) = (0u64, 0u64, 0u64);
+    let mut outcomes: BTreeMap<String, u64> = BTreeMap::new();
+    for s in &stats {
+        execs += s.executions;
+        points += s.points;
+        retried += s.retried;
+        for (k, v) in &s.outcomes {
+            *outcomes.entry(k.clone()).or_insert(0) += v;
+        }
+    }
+    for (v, n) in ctx.drain_violations() {
+        println!("{}", json!({"t": "v", "sig": v.signature, "what": v.what, "case": v.replay, "rank": v.rank, "n": n}));
+    }
+    println!("{}", json!({"t": "done", "executions": execs, "points": points, "retried": retried, "outcomes": outcomes}));
+    0
 }
